@@ -29,13 +29,17 @@ type Builder struct {
 	buckets    []tempBucket
 }
 
+// maxValueSize is the largest supported value size: the size of an index entry
+// (HashSize + value size) is kept in a uint8 (see getEntryStride and DB.entryStride).
+const maxValueSize = 255 - HashSize
+
 // NewBuilderSized creates a new index builder.
 //
 // If dir is an empty string, a random temporary directory is used.
 //
 // numItems refers to the number of items in the index.
 //
-// valueSize is the size of each value in bytes. It must be > 0 and <= 256.
+// valueSize is the size of each value in bytes. It must be > 0 and <= maxValueSize (252).
 // All values must be of the same size.
 func NewBuilderSized(
 	tmpDir string,
@@ -52,8 +56,8 @@ func NewBuilderSized(
 	if valueSizeBytes == 0 {
 		return nil, fmt.Errorf("valueSizeBytes must be > 0")
 	}
-	if valueSizeBytes > 255 {
-		return nil, fmt.Errorf("valueSizeBytes must be <= 255")
+	if valueSizeBytes > maxValueSize {
+		return nil, fmt.Errorf("valueSizeBytes must be <= %d", maxValueSize)
 	}
 	if numItems == 0 {
 		return nil, fmt.Errorf("numItems must be > 0")
